@@ -585,6 +585,28 @@ func genStep(id int, kind string, b bias) O {
 	if p(0.3) {
 		in.props = genProps()
 	}
+	if p(0.04) {
+		// a variable that is bound when the branch is tried: its value is the pattern for what the message has at that place
+		// (a structured value matches what contains it; an inequality's bound is compared, its counterpart bound)
+		type dv struct {
+			bs  match.Bindings
+			pat interface{}
+			msg interface{}
+		}
+		d := []dv{
+			{match.Bindings{"?x": map[string]interface{}{"k": float64(1)}}, map[string]interface{}{"k": "?x"}, map[string]interface{}{"k": map[string]interface{}{"k": float64(1), "z": float64(2)}}},
+			{match.Bindings{"?x": []interface{}{float64(1)}}, map[string]interface{}{"xs": "?x"}, map[string]interface{}{"xs": []interface{}{float64(1), float64(2)}}},
+			{match.Bindings{"?<lim": float64(2)}, map[string]interface{}{"n": "?<lim"}, map[string]interface{}{"n": float64(1)}},
+			{match.Bindings{"?<lim": float64(2)}, map[string]interface{}{"n": "?<lim"}, map[string]interface{}{"n": float64(3)}},
+			{match.Bindings{"?x": map[string]interface{}{"k": float64(1)}}, map[string]interface{}{"k": "?x"}, map[string]interface{}{"k": map[string]interface{}{"z": float64(2)}}},
+		}[rng.Intn(5)]
+		in.bs, in.pending = d.bs, d.msg
+		in.a.Nodes["n0"] = &mach.ANode{BType: "message", Branches: []mach.ABranch{{HasPat: true, Pat: d.pat, Target: "n1"}, {Target: "n0"}}}
+		if in.a.Nodes["n1"] == nil {
+			in.a.Nodes["n1"] = &mach.ANode{NoBr: true}
+		}
+		in.node = "n0"
+	}
 	return stepCase(id, kind, in)
 }
 
